@@ -296,4 +296,13 @@ def r6(ctx):
 
 EXPLANATION = EXPLANATION + ' (R5) repository idioms; (R6) = C05.R7: success may be reported for a fragmented message only if the receiver cannot have discarded fragments it acknowledged (known finding on the pinned tree, DESIGN 8.4).'
 
-RULES = [("C07.R1", r1), ("C07.R2", r2), ("C07.R3", r3), ("C07.R4", r4), ("C07.R5", r_enum), ("C07.R6", r6)]
+def r7(ctx):
+    """'the callback ... fires exactly once' for every message size: a message (or fragment) that no datagram can ever admit
+    stays in the queue for good and its callback never fires - shared capacity obligations C05.R1 (every MTU)"""
+    from . import c05
+    c05.r1(_Sub(ctx, "C07.R7"))
+
+
+EXPLANATION = EXPLANATION + " (R7) every queued message or fragment of every size can be admitted into an empty datagram (shared capacity obligations C05.R1): one that cannot is never sent, and its callback never fires."
+
+RULES = [("C07.R1", r1), ("C07.R2", r2), ("C07.R3", r3), ("C07.R4", r4), ("C07.R5", r_enum), ("C07.R6", r6), ("C07.R7", r7)]
